@@ -82,6 +82,8 @@ enum Case {
     Raw { dirs: String },
     /// one raw `target[{f1,f2}]=level` directive through `Directive::from_str` + add_directive
     RawDirective { dirs: String },
+    /// bytes selecting grammar tokens (also the input format of the coverage-guided stage)
+    Tokens { data: Vec<u8> },
 }
 
 fn spell(level: u8, s: Spell) -> String {
@@ -723,6 +725,147 @@ fn ddir_strategy() -> BoxedStrategy<DDir> {
         .boxed()
 }
 
+// ---------------------------------------------------------------------------------------------
+// coverage-guided stage (thorough tier): bytes -> a string of grammar tokens -> the raw oracles
+
+/// tokens of the directive grammar (and a little noise); one input byte selects one token
+pub const FUZZ_TOKENS: &[&str] = &[
+    "app", "application", "app::db", "app::db::pool", "other", "o", "ap", "zzz", "::", "db", "=", ",", "[", "]", "{", "}", "[{", "}]", "}]=",
+    "off", "error", "warn", "info", "debug", "trace", "OFF", "ERROR", "Warn", "INFO", "DeBuG", "TRACE", "0", "1", "2", "3", "4", "5", "6",
+    "alpha", "beta", "x", "y", "cs", "nope", "true", "false", "\"", "1.5", "-1", " ", "a", "=info", "=trace", "=debug", "=off", "alpha{x=1}", "[alpha]=debug", "[{x}]=info", "app=warn", "app::db=trace",
+];
+
+pub fn fuzz_string(data: &[u8]) -> String {
+    data.iter().take(24).map(|b| FUZZ_TOKENS[*b as usize % FUZZ_TOKENS.len()]).collect()
+}
+
+/// The raw-string oracles on one fuzz input. `Fail` signatures of open known findings (F9, F13)
+/// are reported as such by the caller.
+fn is_level(s: &str) -> bool {
+    NAMES.iter().any(|n| n.eq_ignore_ascii_case(s)) || matches!(s, "0" | "1" | "2" | "3" | "4" | "5")
+}
+fn is_ident(s: &str) -> bool {
+    !s.is_empty() && s.chars().all(|c| c.is_ascii_lowercase() || c == '_') && !is_level(s)
+}
+fn is_target(s: &str) -> bool {
+    !s.is_empty() && s.split("::").all(is_ident)
+}
+fn is_value(s: &str) -> bool {
+    matches!(s, "true" | "false") || s.parse::<f64>().is_ok() || (s.len() >= 2 && s.starts_with('"') && s.ends_with('"') && !s[1..s.len() - 1].contains('"')) || is_ident(s)
+}
+/// Is the string a non-empty comma-separated list of directives of the documented grammar
+/// `target[span{field=value,..}]=level` (each part optional as documented)? The oracles of the
+/// token stage are only applied to such strings; anything else must merely be handled without
+/// a panic.
+pub fn in_grammar(s: &str) -> bool {
+    // commas inside a field list belong to that list
+    let mut parts: Vec<String> = Vec::new();
+    let (mut depth, mut cur) = (0i32, String::new());
+    for c in s.chars() {
+        match c {
+            '{' => depth += 1,
+            '}' => depth -= 1,
+            _ => {}
+        }
+        if c == ',' && depth == 0 {
+            parts.push(std::mem::take(&mut cur));
+        } else {
+            cur.push(c);
+        }
+    }
+    parts.push(cur);
+    parts.iter().all(|d| {
+        if is_level(d) || is_target(d) {
+            return true;
+        }
+        let (head, level) = match d.rsplit_once('=') {
+            Some((h, l)) if is_level(l) && !h.contains('{') || h.ends_with(']') && is_level(l) => (h, true),
+            _ => (d.as_str(), false),
+        };
+        let _ = level;
+        if is_target(head) {
+            return true;
+        }
+        // target[span{fields}]
+        let Some(lb) = head.find('[') else { return false };
+        if !head.ends_with(']') || !(lb == 0 || is_target(&head[..lb])) {
+            return false;
+        }
+        let inner = &head[lb + 1..head.len() - 1];
+        let (span, fields) = match inner.find('{') {
+            Some(b) if inner.ends_with('}') => (&inner[..b], Some(&inner[b + 1..inner.len() - 1])),
+            Some(_) => return false,
+            None => (inner, None),
+        };
+        if !(span.is_empty() || is_ident(span)) || (span.is_empty() && fields.is_none()) {
+            return false;
+        }
+        fields.map(|f| !f.is_empty() && f.split(',').all(|kv| match kv.split_once('=') { Some((k, v)) => is_ident(k) && is_value(v), None => is_ident(kv) })).unwrap_or(true)
+    })
+}
+
+pub fn fuzz_one(data: &[u8]) -> Outcome {
+    let s = fuzz_string(data);
+    let mut classes: Vec<String> = Vec::new();
+    if !in_grammar(&s) {
+        // outside the documented grammar: only "handled without a panic"
+        let _ = s.parse::<Targets>().map(|t| t.to_string());
+        let _ = EnvFilter::try_new(&s).map(|e| e.to_string());
+        return Outcome::pass(false, vec!["fuzz:outside_grammar".into()]);
+    }
+    classes.push("fuzz:in_grammar".into());
+    // Targets documents a comma-delimited list of `target=level` pairs (and the bare forms); its
+    // handling of the bracketed span / field syntax is the subject of the recorded findings F9
+    // and F13, so the Targets oracles of this stage are applied to bracket-free strings only.
+    let targets_grammar = !s.contains('[') && !s.contains('{');
+    if !targets_grammar {
+        classes.push("fuzz:span_or_field_syntax".into());
+    }
+    // Targets: Display / parse round trip, behaviour preserved
+    if let (true, Ok(t)) = (targets_grammar, s.parse::<Targets>()) {
+        classes.push("fuzz:targets_accepts".into());
+        let shown = t.to_string();
+        match shown.parse::<Targets>() {
+            Ok(t2) => {
+                if t2.to_string() != shown {
+                    return fail("Targets does not round-trip through Display", format!("{s:?} -> {shown:?} -> {:?}", t2.to_string()));
+                }
+                for tg in TARGETS.iter().chain(DIR_TARGETS.iter()) {
+                    for l in [tracing_core::Level::ERROR, tracing_core::Level::WARN, tracing_core::Level::INFO, tracing_core::Level::DEBUG, tracing_core::Level::TRACE] {
+                        if t.would_enable(tg, &l) != t2.would_enable(tg, &l) {
+                            return fail("Targets behaves differently after a Display / parse round trip", format!("{s:?} -> {shown:?}: would_enable({tg:?}, {l})"));
+                        }
+                    }
+                }
+            }
+            Err(e) => return fail("Targets' Display output is rejected by its own parser", format!("{s:?} -> {shown:?}: {e}")),
+        }
+    }
+    if let Ok(e) = EnvFilter::try_new(&s) {
+        classes.push("fuzz:envfilter_accepts".into());
+        let shown = e.to_string();
+        match EnvFilter::try_new(&shown) {
+            Ok(e2) => {
+                if e2.to_string() != shown {
+                    return fail("EnvFilter does not round-trip through Display", format!("{s:?} -> {shown:?} -> {:?}", e2.to_string()));
+                }
+            }
+            Err(err) => return fail("EnvFilter's Display output is rejected by its own parser", format!("{s:?} -> {shown:?}: {err}")),
+        }
+    }
+    let o = if targets_grammar { run_raw(&s) } else { Outcome::pass(false, vec!["raw_not_accepted_by_both".into()]) };
+    match o.verdict {
+        vp_engine::Verdict::Pass => {
+            let both = !o.classes.iter().any(|c| c == "raw_not_accepted_by_both");
+            if both {
+                classes.push("fuzz:accepted_by_both".into());
+            }
+            Outcome::pass(both && s.contains(','), classes)
+        }
+        _ => o,
+    }
+}
+
 struct C11;
 impl Property for C11 {
     type Case = Case;
@@ -768,7 +911,8 @@ impl Property for C11 {
                 ops.extend(extra);
                 Case::Dynamic { sdirs, ddirs, as_filter, ops }
             });
-        prop_oneof![2 => st, 2 => dy, 1 => nested].boxed()
+        let tokens = proptest::collection::vec(any::<u8>(), 1..16).prop_map(|data| Case::Tokens { data });
+        prop_oneof![2 => st, 2 => dy, 1 => nested, 1 => tokens].boxed()
     }
     fn run(&self, case: &Case) -> Outcome {
         match case {
@@ -776,6 +920,7 @@ impl Property for C11 {
             Case::Dynamic { sdirs, ddirs, as_filter, ops } => run_dynamic(sdirs, ddirs, *as_filter, ops),
             Case::Raw { dirs } => run_raw(dirs),
             Case::RawDirective { dirs } => run_raw_directive(dirs),
+            Case::Tokens { data } => fuzz_one(data),
         }
     }
     fn rule(&self) -> String {
@@ -811,6 +956,14 @@ impl Property for C11 {
 }
 
 fn main() {
+    // `--decode-fuzz FILE`: print the case a coverage-guided-stage input decodes to
+    let a: Vec<String> = std::env::args().collect();
+    if a.len() == 3 && a[1] == "--decode-fuzz" {
+        let data = std::fs::read(&a[2]).expect("readable input");
+        println!("{}", serde_json::to_string(&Case::Tokens { data }).unwrap());
+        return;
+    }
+
     let _ = kf::verif_dir();
     vp_engine::main(C11)
 }
